@@ -598,6 +598,13 @@ VDLSweep(S, e, S2) ==
     \cup Chk("C06:sweep-progress", must # {} => D # {})
     \cup Chk("C06:forward-exactly-once", FwdExact(S, S2, D))
     \cup Chk("C06:forward-fresh", FwdFresh(S, S2, e.t0, e.t1))
+    \* C03: an acknowledgement is final for the sweep too - an acknowledged delivery is neither
+    \* touched nor forwarded, however many attempts it had used and however old its deadline is
+    \cup Chk("C03:sweep-touches-acknowledged", \A d \in S.acked : d \in Dels(S2) /\ SameDel(S, S2, d))
+    \cup Chk("C03:sweep-forwards-acknowledged",
+        \A n \in NewDels(S, S2) :
+           (\E d \in S.acked : d[1] = n[1] /\ S.subs[d[2]].dlt = S.subs[n[2]].topic)
+             => \E x \in D : x[1] = n[1])
     \cup Chk("C15:sweep-frame",
         /\ \A d \in Dels(S) \ D : SameDel(S, S2, d)
         /\ RestSame(S, S2, {"topics", "subs", "msgs", "snaps"}))
